@@ -90,3 +90,53 @@ pub mod c10 {
         n as u8
     }
 }
+
+// C02 positive control for the guardflow analysis: a value extracted from a callee-returned
+// Guarded outlives the guard across an allocating call (stub types carry the real names)
+pub mod gc {
+    use std::marker::PhantomData;
+    pub struct Gc<T>(pub u32, pub PhantomData<T>);
+    impl<T> Clone for Gc<T> { fn clone(&self) -> Self { Gc(self.0, PhantomData) } }
+    pub struct Guard<T>(pub Vec<u32>, pub PhantomData<T>);
+    impl<T> Guard<T> { pub fn guard(&self, _o: Gc<T>) {} }
+    pub struct Space<T>(pub Vec<u32>, pub PhantomData<T>);
+    impl<T> Space<T> { pub fn alloc_internal(&mut self) -> Gc<T> { self.0.push(1); Gc(0, PhantomData) } }
+}
+pub mod value {
+    use super::gc::{Gc, Guard};
+    pub struct JsObject;
+    #[derive(Clone)]
+    pub enum JsValue { Undefined, Number(f64), Object(Gc<JsObject>) }
+    pub struct Guarded { pub value: JsValue, pub guard: Option<Guard<JsObject>> }
+}
+pub mod c02 {
+    use super::gc::Space;
+    use super::value::{Guarded, JsObject, JsValue};
+    pub struct Interp { pub space: Space<JsObject> }
+    impl Interp {
+        pub fn call_function(&mut self, _f: JsValue, _arg: &[JsValue]) -> Result<Guarded, ()> {
+            let o = self.space.alloc_internal();
+            Ok(Guarded { value: JsValue::Object(o), guard: None })
+        }
+    }
+    /// BAD: `acc` loses its guard at the end of each iteration and is used in the next call
+    pub fn unrooted_accumulator(interp: &mut Interp, cb: JsValue, n: u32) -> Result<JsValue, ()> {
+        let mut acc = JsValue::Undefined;
+        for _ in 0..n {
+            let Guarded { value, guard: _g } = interp.call_function(cb.clone(), &[acc])?;
+            acc = value;
+        }
+        Ok(acc)
+    }
+    /// GOOD: the guard is kept alive alongside the value
+    pub fn rooted_accumulator(interp: &mut Interp, cb: JsValue, n: u32) -> Result<Guarded, ()> {
+        let mut acc = JsValue::Undefined;
+        let mut keep = None;
+        for _ in 0..n {
+            let Guarded { value, guard } = interp.call_function(cb.clone(), &[acc])?;
+            acc = value;
+            keep = guard;
+        }
+        Ok(Guarded { value: acc, guard: keep })
+    }
+}
